@@ -26,6 +26,10 @@ POOL = idl.KEYWORDS + ["{", "}", "(", ")", "[", "]", "<", ">", ":", "=", ",", ";
                        "//", "/*", "*/", "0x", "1e", "99999999999", "-99999999999999999999", "0x" + "f" * 17, "1.5e99999999999", "_", "é",
                        "中", "\x00", "\t"]
 INFLATE = (10, 11, 20, 40)
+# lexical units for the long-run fault: every punctuation / sign / quote character, a digit, a letter, blanks, and the comment forms
+# (opening brackets are left out: a run of them IS nesting, which the nesting generators judge up to depth 64)
+RUN_UNITS = ["-", "+", ")", "]", "}", ">", ",", ";", ":", "=", ".", "*", "/", "#", "\\", "_", "9", "a", " ", "\n",
+             "#\n", "//\n", "/**/", "/**/ ", "# c\n ", "- ", "-+", "0x", "1e", "a.", "a,", "''", '""']
 JUDGED_DEPTH = int(os.environ.get("VERIF_IDL_JUDGED_DEPTH", "64"))     # the override exists for the sensitivity run only
 
 
@@ -155,6 +159,37 @@ def enumerate_faults(docs, tier, seed):
                 for k in range(len(text)):
                     add({"fault": "truncate", "doc": doc["name"], "base": bname, "at": k}, raw=text[:k])
 
+    # long runs: one lexical unit repeated until the text is just under 64 KiB, in front of a token of a valid document (a
+    # parser that handles a repeated prefix by recursing once per repetition exhausts its stack without any NESTING at all)
+    full_docs = [doc for doc in docs.values() if doc["mode"] == "full" and doc["toks"]]
+    seen_roles = set()
+    for doc in full_docs:
+        base = doc["layouts"][0]["p"]
+        n = len(doc["toks"])
+        printed = [i for i in range(1, n + 1) if base[2 * i - 1] != ""]
+        if not thorough:
+            # one token per role over all full documents (what may start at a position depends on the role of the token there)
+            by_role = {}
+            for i in printed:
+                r = doc["toks"][i - 1]["r"]
+                if r not in seen_roles:
+                    by_role.setdefault(r, i)
+            seen_roles |= set(by_role)
+            printed = sorted(by_role.values())
+        for i in printed:
+            pre = "".join(base[: 2 * i - 1])
+            post = "".join(base[2 * i - 1:])
+            room = 64 * 1024 - 16 - len(pre.encode()) - len(post.encode())
+            for unit in RUN_UNITS:
+                k = room // len(unit.encode())
+                if k < 10:
+                    continue
+                m = {"fault": "long-run", "doc": doc["name"], "tok": i, "role": doc["toks"][i - 1]["r"], "unit": unit, "times": k}
+                j = len(cases)
+                cases.append({"id": j, "pre": pre, "unit": unit, "n": k, "post": post})
+                m["id"] = j
+                meta.append(m)
+
     judged, probes = depths(tier)
     for name, gen in nest_generators().items():
         for dp in judged + probes:
@@ -235,6 +270,8 @@ def run(cases, tag, chunk=20000):
 
 
 def case_text(case):
+    if "unit" in case:
+        return case["pre"] + case["unit"] * case["n"] + case["post"]
     if "p" in case:
         return "".join(case["p"])
     if "text" in case:
